@@ -24,7 +24,6 @@ import (
 	"sync"
 	"unsafe"
 
-	"github.com/cloudwego/frugal/internal/defs"
 	"github.com/cloudwego/gopkg/protocol/thrift"
 )
 
@@ -223,7 +222,7 @@ func decodeStringNoCopy(t *tType, b []byte, p unsafe.Pointer) (i int, err error)
 	}
 	i += 4
 	if l == 0 {
-		if t.Tag == defs.T_binary {
+		if t.isBinary() {
 			*(*[]byte)(p) = []byte{}
 		} else {
 			*(*string)(p) = ""
@@ -235,7 +234,7 @@ func decodeStringNoCopy(t *tType, b []byte, p unsafe.Pointer) (i int, err error)
 		return i, newSizeExceedsBufferException(l, len(b)-i)
 	}
 
-	if t.Tag == defs.T_binary {
+	if t.isBinary() {
 		*(*[]byte)(p) = unsafe.Slice(&b[i], l)
 	} else {
 		*(*string)(p) = unsafe.String(&b[i], l)
@@ -265,7 +264,7 @@ func (d *tDecoder) decodeType(t *tType, b []byte, p unsafe.Pointer, maxdepth int
 		}
 		i := 4
 		if l == 0 {
-			if t.Tag == defs.T_binary {
+			if t.isBinary() {
 				*(*[]byte)(p) = []byte{}
 			} else {
 				*(*string)(p) = ""
@@ -278,7 +277,7 @@ func (d *tDecoder) decodeType(t *tType, b []byte, p unsafe.Pointer, maxdepth int
 		}
 
 		x := d.Malloc(l, 1, 0)
-		if t.Tag == defs.T_binary {
+		if t.isBinary() {
 			*(*[]byte)(p) = unsafe.Slice((*byte)(x), l)
 		} else {
 			*(*string)(p) = unsafe.String((*byte)(x), l)
